@@ -187,8 +187,28 @@ def run_history(seed, env, res):
     kind = None
     try:
         for step in range(rnd.randint(2, 9)):
-            act = rnd.choice(["new", "same", "new", "scroll", "drop", "add", "clear", "shift", "shift"])
-            if act == "new" or top is None:
+            act = rnd.choice(["new", "same", "new", "scroll", "drop", "add", "clear", "shift", "shift", "popup", "popup"])
+            if act == "popup" and top is not None and kind == "popup":
+                # the pop-up is dismissed: what it covered shows again, unchanged
+                kind, top = top._vf_under
+                res.count("pop-ups dismissed")
+            elif act == "popup" and top is not None and kind != "solid":
+                # a pop-up opens over the unchanged layout (same widgets, same cached
+                # canvases): it covers a band on one side, the middle, or a full-height /
+                # full-width strip of what is below
+                under = (kind, top)
+                top = urwid.Overlay(
+                    urwid.LineBox(urwid.SolidFill("o")) if rnd.random() < 0.7 else urwid.SolidFill("o"),
+                    top,
+                    rnd.choice(["center", "left", "right", "right"]),
+                    rnd.choice([("relative", 30), ("relative", 50), ("relative", 100), rnd.randint(1, size[0])]),
+                    rnd.choice(["middle", "top", "bottom"]),
+                    rnd.choice([("relative", 30), ("relative", 100), ("relative", 100), rnd.randint(1, size[1])]),
+                )
+                top._vf_under = under
+                kind = "popup"
+                res.count("pop-ups opened over an unchanged layout")
+            elif act == "new" or top is None or act == "popup":
                 kind, top = layout(rnd, widgets, urwid)
             elif act == "drop" and len(widgets) > 1:
                 widgets.pop(rnd.randrange(len(widgets)))
